@@ -114,6 +114,7 @@ func registerHooks(p *Program) {
 		_, ok := args[0].(string)
 		return ok
 	}
+	h[rtPkg+".Settle"] = func(fr *frame, args []value) value { return nil }
 	h[rtPkg+".Catch"] = hookCatch
 	h[rtPkg+".Tier"] = func(fr *frame, args []value) value { return fr.i.es.cfg.Tier }
 	h[rtPkg+".Logf"] = func(fr *frame, args []value) value {
